@@ -31,13 +31,16 @@ def usedRules : List String := [
   "oC_PowerOfExpression", "oC_UnaryAddOrSubtractExpression", "oC_NonArithmeticOperatorExpression", "oC_PropertyLookup", "oC_NodeLabels",
   "oC_NodeLabel", "oC_LabelName", "oC_PropertyKeyName", "oC_SchemaName", "oC_SymbolicName", "oC_Atom", "oC_Variable", "oC_Parameter",
   "oC_Literal", "oC_BooleanLiteral", "oC_NumberLiteral", "oC_IntegerLiteral", "oC_DoubleLiteral", "oC_ListLiteral", "oC_MapLiteral",
-  "oC_ParenthesizedExpression", "oC_FunctionInvocation", "oC_FunctionName", "oC_Namespace"]
+  "oC_ParenthesizedExpression", "oC_FunctionInvocation", "oC_FunctionName", "oC_Namespace",
+  "oC_Properties", "oC_NodePattern", "oC_RelationshipPattern", "oC_RelationshipDetail", "oC_RelationshipTypes", "oC_RelTypeName",
+  "oC_RangeLiteral", "oC_LeftArrowHead", "oC_RightArrowHead", "oC_Dash", "oC_PatternElement", "oC_PatternElementChain",
+  "oC_PatternPart", "oC_AnonymousPatternPart", "oC_ShortestPathPattern", "oC_Pattern"]
 
 def usedToks : List String := [
   "OR", "XOR", "AND", "NOT", "STARTS", "WITH", "ENDS", "CONTAINS", "IN", "IS", "NULL", "COUNT", "DISTINCT", "TRUE", "FALSE",
   "StringLiteral", "DecimalInteger", "RegularDecimalReal", "UnescapedSymbolicName",
   "T__1", "T__2", "T__3", "T__4", "T__5", "T__6", "T__9", "T__10", "T__12", "T__13", "T__14", "T__15", "T__16", "T__17", "T__18",
-  "T__19", "T__20", "T__21", "T__22", "T__23", "T__24", "T__25", "T__26"]
+  "T__19", "T__20", "T__21", "T__22", "T__23", "T__24", "T__25", "T__26", "T__8", "T__11", "SHORTESTPATH", "ALLSHORTESTPATHS"]
 
 /-- the tables resolve every used rule name to an index that maps back to the name, every used token name to a type, and
 different token names to different types -/
@@ -90,6 +93,27 @@ def symName (s : String) : Tree := N.nd "oC_SymbolicName" [N.lf "UnescapedSymbol
 def exprNode (t : Tree) : Tree := N.nd "oC_Expression" [t]
 def schemaName (rule : String) (s : String) : Tree := N.nd rule [N.nd "oC_SchemaName" [symName N s]]
 
+/-! ### map literals -/
+
+def joinGroups (sep : Tree) : List (List Tree) → List Tree
+  | [] => []
+  | [g] => g
+  | g :: h :: rest => g ++ sep :: joinGroups sep (h :: rest)
+
+def mapEntry (recT : Expr → Tree) (p : String × Expr) : List Tree :=
+  [schemaName N "oC_PropertyKeyName" p.1, N.lf "T__10" ":", exprNode N (recT p.2)]
+
+def tMap (recT : Expr → Tree) (kvs : List (String × Expr)) : Tree :=
+  N.nd "oC_MapLiteral" ([N.lf "T__24" "{"] ++ joinGroups (N.lf "T__6" ",") (kvs.map (mapEntry N recT)) ++ [N.lf "T__25" "}"])
+
+def pairwiseLt : List String → Bool
+  | [] => true
+  | k :: ks => ks.all (fun k' => decide (k < k')) && pairwiseLt ks
+
+/-- a Go map as the visitor fills it and the emitter prints it: keys bare, strictly increasing -/
+def wMap (recW : Expr → Bool) (kvs : List (String × Expr)) : Bool :=
+  kvs.all (fun p => simpleKey p.1 && recW p.2) && pairwiseLt (kvs.map (·.1))
+
 /-! ### atoms -/
 
 def tAtomInner (recT : Expr → Tree) : Expr → Tree
@@ -103,6 +127,7 @@ def tAtomInner (recT : Expr → Tree) : Expr → Tree
   | .list es => N.nd "oC_Literal" [N.nd "oC_ListLiteral"
       ([N.lf "T__4" "["] ++ interleave (N.lf "T__6" ",") (es.map (fun e => exprNode N (recT e))) ++ [N.lf "T__5" "]"])]
   | .paren e => N.nd "oC_ParenthesizedExpression" [N.lf "T__2" "(", exprNode N (recT e), N.lf "T__3" ")"]
+  | .map kvs => N.nd "oC_Literal" [tMap N recT kvs]
   | .fn d _ name args => N.nd "oC_FunctionInvocation"
       ([N.nd "oC_FunctionName" [N.nd "oC_Namespace" [], symName N name], N.lf "T__2" "("] ++
        (if d then [N.lf "DISTINCT" "distinct"] else []) ++
@@ -119,6 +144,7 @@ def wAtom (recW : Expr → Bool) : Expr → Bool
   | .lit (.float t) => fmtFloat t == some t
   | .list es => es.all recW
   | .paren e => recW e
+  | .map kvs => wMap recW kvs
   | .fn _ ns _ args => ns.isEmpty && args.all recW
   | _ => false
 
@@ -260,6 +286,90 @@ def tOr (recT : Expr → Tree) : Expr → Tree
 def wOr (recW : Expr → Bool) : Expr → Bool
   | .disj es => decide (2 ≤ es.length) && es.all (wXor recW)
   | e => wXor recW e
+
+/-! ### map literals, properties, node / relationship patterns, pattern parts -/
+
+def tProps (recT : Expr → Tree) : Expr → Tree
+  | .map kvs => N.nd "oC_Properties" [tMap N recT kvs]
+  | .param s => N.nd "oC_Properties" [N.nd "oC_Parameter" [N.lf "T__26" "$", symName N s]]
+  | _ => .leaf ""
+
+def wProps' (recW : Expr → Bool) : Expr → Bool
+  | .map kvs => wMap recW kvs
+  | .param _ => true
+  | _ => false
+
+def optList {α} (o : Option α) (f : α → Tree) : List Tree := match o with | some a => [f a] | none => []
+
+def varNode (s : String) : Tree := N.nd "oC_Variable" [symName N s]
+
+def tNode (recT : Expr → Tree) : PatEl → Tree
+  | .node v ls p => N.nd "oC_NodePattern"
+      ([N.lf "T__2" "("] ++ optList v (varNode N) ++ (if ls.isEmpty then [] else [labelsNode N ls]) ++ optList p (tProps N recT) ++ [N.lf "T__3" ")"])
+  | _ => .leaf ""
+
+def wNode (recW : Expr → Bool) : PatEl → Bool
+  | .node _ _ p => (match p with | some x => wProps' recW x | none => true)
+  | _ => false
+
+def relTypesNode (ks : List String) : Tree :=
+  match ks with
+  | [] => .leaf ""
+  | k :: rest => N.nd "oC_RelationshipTypes"
+      (N.lf "T__10" ":" :: schemaName N "oC_RelTypeName" k :: (rest.map (fun k' => [N.lf "T__8" "|", schemaName N "oC_RelTypeName" k'])).flatten)
+
+def intLit (a : Int) : Tree := N.nd "oC_IntegerLiteral" [N.lf "DecimalInteger" (toString a.toNat)]
+
+def rangeNode (r : Option Int × Option Int) : Tree :=
+  N.nd "oC_RangeLiteral"
+    ([N.lf "T__9" "*"] ++ optList r.1 (intLit N) ++ (if r.1.isSome || r.2.isSome then [N.lf "T__11" ".."] else []) ++ optList r.2 (intLit N))
+
+def wBound (o : Option Int) : Bool := match o with | some a => decide (0 ≤ a) && decide (a ≤ maxInt64) | none => true
+
+def tRel (recT : Expr → Tree) : PatEl → Tree
+  | .rel v ks d rg p => N.nd "oC_RelationshipPattern"
+      ((if d == 0 then [N.nd "oC_LeftArrowHead" [N.lf "T__13" "<"]] else []) ++
+       [N.nd "oC_Dash" [N.lf "T__19" "-"],
+        N.nd "oC_RelationshipDetail" ([N.lf "T__4" "["] ++ optList v (varNode N) ++ (if ks.isEmpty then [] else [relTypesNode N ks]) ++
+          optList rg (rangeNode N) ++ optList p (tProps N recT) ++ [N.lf "T__5" "]"]),
+        N.nd "oC_Dash" [N.lf "T__19" "-"]] ++
+       (if d == 1 then [N.nd "oC_RightArrowHead" [N.lf "T__14" ">"]] else []))
+  | _ => .leaf ""
+
+def wRel (recW : Expr → Bool) : PatEl → Bool
+  | .rel _ ks d rg p => decide (d ≤ 2) && ks.eraseDups == ks &&
+      (match rg with | some r => wBound r.1 && wBound r.2 | none => true) &&
+      (match p with | some x => wProps' recW x | none => true)
+  | _ => false
+
+def pairUp (recT : Expr → Tree) : List PatEl → List Tree
+  | r :: n :: rest => N.nd "oC_PatternElementChain" [tRel N recT r, tNode N recT n] :: pairUp recT rest
+  | _ => []
+
+def wPairs (recW : Expr → Bool) : List PatEl → Bool
+  | r :: n :: rest => wRel recW r && wNode recW n && wPairs recW rest
+  | [] => true
+  | [_] => false
+
+def tPatEl (recT : Expr → Tree) (els : List PatEl) : Tree :=
+  match els with
+  | n :: rest => N.nd "oC_PatternElement" (tNode N recT n :: pairUp N recT rest)
+  | [] => .leaf ""
+
+def wPatEl (recW : Expr → Bool) (els : List PatEl) : Bool :=
+  match els with
+  | n :: rest => wNode recW n && wPairs recW rest
+  | [] => false
+
+def tPart (recT : Expr → Tree) (p : PatternPart) : Tree :=
+  N.nd "oC_PatternPart"
+    ((match p.var with | some v => [varNode N v, N.lf "T__1" "="] | none => []) ++
+     [N.nd "oC_AnonymousPatternPart"
+        [if p.shortest then N.nd "oC_ShortestPathPattern" [N.lf "SHORTESTPATH" "shortestPath", N.lf "T__2" "(", tPatEl N recT p.els, N.lf "T__3" ")"]
+         else if p.allShortest then N.nd "oC_ShortestPathPattern" [N.lf "ALLSHORTESTPATHS" "allShortestPaths", N.lf "T__2" "(", tPatEl N recT p.els, N.lf "T__3" ")"]
+         else tPatEl N recT p.els]])
+
+def wPart (recW : Expr → Bool) (p : PatternPart) : Bool := !(p.shortest && p.allShortest) && wPatEl recW p.els
 
 /-- the canonical tree of an expression nested `f` deep (oC_OrExpression node) -/
 def treeOfExpr : Nat → Expr → Tree
